@@ -10,6 +10,8 @@ use varpulis_core::Value;
 use varpulis_runtime::event::Event;
 
 pub mod engine;
+pub mod seq;
+pub mod expr;
 pub mod vplsrc;
 
 /// f64 with exact textual serialisation.
